@@ -1,7 +1,7 @@
 (* C12 - delete_tags removes every live key carrying the tag.  The unchanged code violates the full property in two
    recorded ways (KNOWN_FINDINGS F20, F21); the faithful model therefore refutes the full statement (witnesses below,
    replayed on the implementation by corpus/C12), and what is proved is the part that does hold.  Statements only. *)
-From Cashews Require Import Base.Prelude Spec.TTLMap Model.Tags Run.C12 Proofs.TagsProofs Proofs.TagsCompleteProofs.
+From Cashews Require Import Base.Prelude Spec.TTLMap Model.Tags Run.C12 Proofs.TagsProofs Proofs.TagsCompleteProofs Proofs.TagsPreciseProofs.
 Open Scope Z_scope.
 
 (* a write with tags makes the key a member of each named tag's set at once, for every TTL (none, short, long) *)
@@ -39,3 +39,33 @@ Theorem C12_tags_precise_refuted :
   ok_tags KEYS [] (lift h_F21) (run_tags REG KEYS empty (lift h_F21)) = false /\ excl_f21 REG KEYS [] h_F21 = true.
 Proof. exact tags_precise_refuted. Qed.
 Print Assumptions C12_tags_precise_refuted.
+
+(* the second sentence of the property (precision) where F21 cannot arise: for every history without TTLs in which every tag
+   given to a key is registered for that key's template (`ev_reg`), every registry and every order of writes, delete_tags(t)
+   leaves untouched every key that has not carried t since it was last removed - keys that never carried t, and keys deleted
+   after carrying t and re-created without it.  `jstep` is the ghost "tags carried by the writes of a key since its last removal". *)
+Theorem C12_precise_without_ttl_registered : forall reg keys h, Forall not_tagkey keys -> Forall (fun te => ev_reg reg (snd te)) h ->
+  let '(m, j) := run_j reg keys empty (fun _ => []) h in
+  Inv2 reg m j /\
+  forall now t k, not_tagkey k -> ~ In t (j k) -> tag_step reg keys m now (TDeleteTags t) k = m k.
+Proof. exact tags_precise_nottl. Qed.
+Print Assumptions C12_precise_without_ttl_registered.
+
+(* non-vacuity: a:1 is written under the registered tag ta, deleted, re-created without it; a:2 still carries ta:
+   the premises hold, a:1 has not carried ta since its removal and survives delete_tags(ta), a:2 does not *)
+Definition h_precise : list (Z * tev) :=
+  [(1, TSet "a:1" (VInt 1) 0 ["ta"]); (1, TSet "a:2" (VInt 2) 0 ["ta"]); (2, TDel "a:1"); (3, TSet "a:1" (VInt 5) 0 [])].
+Example C12_precise_example :
+  Forall (fun te => ev_reg REG (snd te)) h_precise /\
+  let '(m, j) := run_j REG KEYS empty (fun _ => []) h_precise in
+  (j "a:1", j "a:2", isSome (tag_step REG KEYS m 4 (TDeleteTags "ta") "a:1"), isSome (tag_step REG KEYS m 4 (TDeleteTags "ta") "a:2"))
+  = ([], ["ta"], true, false).
+Proof.
+  split; [|vm_compute; reflexivity].
+  assert (NT : forall k, (k = "a:1" \/ k = "a:2") -> not_tagkey k) by (intros k [->| ->] t E; discriminate).
+  unfold h_precise.
+  constructor; [cbn [snd ev_reg]; split; [reflexivity|split; [apply NT; auto|intros t [<-|[]]; vm_compute; auto]]|].
+  constructor; [cbn [snd ev_reg]; split; [reflexivity|split; [apply NT; auto|intros t [<-|[]]; vm_compute; auto]]|].
+  constructor; [cbn [snd ev_reg]; apply NT; auto|].
+  constructor; [cbn [snd ev_reg]; split; [reflexivity|split; [apply NT; auto|intros t []]]|constructor].
+Qed.
